@@ -522,62 +522,151 @@ def _lookbehind_sites(f, start_name):
     return out
 
 
+def _guard_alternatives(f, n, prevbits):
+    """The conditions under which node n is evaluated, as a list of alternatives (a disjunction):
+    each alternative is (constraints, uses_contract).  A local flag with a single definition is
+    replaced by its definition, `a || b` known true splits into alternatives, and a test of
+    the left-context flag marks the alternative as resting on the callers' contract (s[-1] is
+    part of the line)."""
+    from ..util import resolve_local
+
+    def expand(c, t):
+        c, t = negate_truth(c, t)
+        c = strip_casts(c)
+        if c["k"] == "ref" and c.get("cat") == "local":
+            r = resolve_local(f, c)
+            # only flags: locals defined by a logical expression
+            if r is not c and ((r["k"] == "bin" and r["op"] in ("||", "&&", "<", "<=", ">", ">=", "==", "!="))
+                               or (r["k"] == "un" and r["op"] == "!")):
+                return expand(r, t)
+        if c["k"] == "bin" and c["op"] == "||" and t:
+            return expand(c["l"], True) + expand(c["r"], True)
+        if c["k"] == "bin" and c["op"] == "&&" and t:
+            out = []
+            for x, cx in expand(c["l"], True):
+                for y, cy in expand(c["r"], True):
+                    out.append((x + y, cx or cy))
+            return out
+        if c["k"] == "bin" and c["op"] == "&&" and not t:
+            return expand(c["l"], False) + expand(c["r"], False)
+        if c["k"] == "bin" and c["op"] == "||" and not t:
+            out = []
+            for x, cx in expand(c["l"], False):
+                for y, cy in expand(c["r"], False):
+                    out.append((x + y, cx or cy))
+            return out
+        if c["k"] == "bin" and c["op"] == "&" and cval(c["r"]) in prevbits and t:
+            return [([], True)]
+        return [(cmp_constraints(c, t), False)]
+    # the guards are collected per path (a condition reached through two different edges of an
+    # `||` is dominated by neither): from the head of the innermost loop, else from the entry
+    from ..cfg import paths_to
+    from ..util import path_consistent
+    cfg = f.cfg
+    start = cfg.entry
+    pos = cfg.pos(n)
+    if pos is not None:
+        inner = None
+        for h, body in cfg.loops().items():
+            if pos[0] in body and (inner is None or len(body) < len(inner[1])):
+                inner = (h, body)
+        if inner is not None:
+            start = inner[0]
+    common = _facts(f, n)
+    out = []
+    try:
+        plist = paths_to(cfg, start, n["id"], max_paths=400)
+    except OverflowError:
+        plist = []
+    if not plist:
+        plist = [[]]
+    for items in plist:
+        if items and not path_consistent(f, items):
+            continue
+        conds = list(common) + [(f.nodes[x[1]], x[2]) for x in items if x[0] == "br"]
+        alts = [([], False)]
+        seen_c = set()
+        for c, t in conds:
+            if (c["id"], t) in seen_c:
+                continue
+            seen_c.add((c["id"], t))
+            new = []
+            for cons, ctr in alts:
+                for x, cx in expand(c, t):
+                    new.append((cons + x, ctr or cx))
+            alts = new[:64]
+        out += alts
+    return out
+
+
 def rule_L4(ctx):
+    """A read before the current position stays inside the subject: under every alternative of
+    its guards either `address >= subject start` is PROVEN, or the alternative is the
+    left-context flag, whose contract (s[-1] belongs to the line) is an obligation of the
+    callers (M2)."""
     ctx.begin("L4", floor=3, what="look-behind reads")
     prog = ctx.prog
+    fl = matcher_flags(prog)
+    prevbits = {b_ for b_ in (fl["PREV"], fl["map"].get(fl["PREV"]) if fl["PREV"] is not None else None)
+                if b_ is not None}
     f = prog.func("rstr_find", file="rstr.c")
     s = f.params[1]["name"]
     n_sites = 0
+    n_contract = 0
     for n, l in _lookbehind_sites(f, s):
         n_sites += 1
-        hyps = []
-        for c, t in _facts(f, n):
-            hyps += cmp_constraints(c, t)
-        # loop variable starts at the subject and only grows; lengths are non-negative
-        for a in list(l.c):
-            if a != s and l.c[a] > 0 and a != "len":
-                hyps.append(Lin({a: 1}) - Lin({s: 1}))     # r >= s
-        if "len" in l.c:
-            hyps.append(Lin({"len": 1}))
-        v = prove_le(Lin({s: 1}), l, hyps)
-        if v == PROVEN:
-            ctx.ok("rstr_find", "read at %r stays at or after the subject start" % l, loc=f.loc(n))
+        bad = None
+        for hyps, contract in _guard_alternatives(f, n, prevbits):
+            if contract:
+                n_contract += 1
+                continue
+            hyps = list(hyps)
+            # loop variable starts at the subject and only grows; lengths are non-negative
+            for a in list(l.c):
+                if a != s and l.c[a] > 0 and a != "len":
+                    hyps.append(Lin({a: 1}) - Lin({s: 1}))     # r >= s
+            if "len" in l.c:
+                hyps.append(Lin({"len": 1}))
+            v = prove_le(Lin({s: 1}), l, hyps)
+            if v != PROVEN:
+                bad = v
+        if bad is None:
+            ctx.ok("rstr_find", "read at %r stays at or after the subject start (or rests on the "
+                   "left-context flag)" % l, loc=f.loc(n))
         else:
             ctx.violation("rstr_find", "look-behind stays inside the subject",
                           "the read at %s is not guarded so that it is >= %s (%s): with an empty "
                           "literal at the line start it reads the byte before the line" % (
-                              key(n)[:50], s, v), f.loc(n))
-    g = prog.func("ratom_match", file="regex.c")
-    for n, l in _lookbehind_sites(g, "rs->o"):
-        n_sites += 1
-        # guarded by rs->s == rs->o || ...  /  rs->s != rs->o && ... / rs->s > rs->o &&
-        facts = _facts(g, n)
-        okg = False
-        for c, t in facts:
-            k_ = key(c)
-            if k_ in ("(rs->s==rs->o)",) and not t:
-                okg = True
-            if k_ in ("(rs->s!=rs->o)", "(rs->s>rs->o)") and t:
-                okg = True
-        # short-circuit guards inside one return expression
-        anc = g.nodes.get(g.parent.get(n["id"]))
-        cur = n
-        while anc is not None and not okg:
-            if anc["k"] == "bin" and anc["op"] == "||" and anc["r"] is not None and \
-                    any(x["id"] == cur["id"] for x in walk(anc["r"])) and key(anc["l"]) == "(rs->s==rs->o)":
-                okg = True
-            if anc["k"] == "bin" and anc["op"] == "&&" and any(x["id"] == cur["id"] for x in walk(anc["r"])):
-                for cj in flatten_and(anc["l"]):
-                    if key(cj) in ("(rs->s!=rs->o)", "(rs->s>rs->o)"):
-                        okg = True
-            cur = anc
-            anc = g.nodes.get(g.parent.get(anc["id"]))
-        if okg:
-            ctx.ok("ratom_match", "read before rs->s only when rs->s > rs->o", loc=g.loc(n))
-        else:
-            ctx.violation("ratom_match", "look-behind stays inside the subject",
-                          "%s is read without a test that the position is past the subject start" % key(n)[:50],
-                          g.loc(n))
+                              key(n)[:50], s, bad), f.loc(n))
+    g0 = prog.func("ratom_match", file="regex.c")
+    names = {g0.name} | {c_.get("fn") for c_ in g0.calls() if c_.get("fn")}
+    for g in prog.funcs.values():
+        if g.file != "regex.c" or g.name not in names:
+            continue
+        for n, l in _lookbehind_sites(g, "rs->o"):
+            if not any(a_.endswith("->s") for a_ in l.c):
+                continue
+            n_sites += 1
+            bad = None
+            sk = next(a_ for a_ in l.c if a_.endswith("->s"))
+            ok_ = sk[:-1] + "o"
+            for hyps, contract in _guard_alternatives(g, n, prevbits):
+                if contract:
+                    n_contract += 1
+                    continue
+                hyps = list(hyps) + [Lin({sk: 1}) - Lin({ok_: 1})]      # the position never precedes the start
+                v = prove_le(Lin({ok_: 1}), l, hyps)
+                if v != PROVEN:
+                    bad = v
+            if bad is None:
+                ctx.ok(g.name, "read before rs->s only when rs->s > rs->o (or under the left-context flag)",
+                       loc=g.loc(n))
+            else:
+                ctx.violation(g.name, "look-behind stays inside the subject",
+                              "%s is read without a test that the position is past the subject start" % key(n)[:50],
+                              g.loc(n))
+    if n_contract:
+        ctx.note("%d guard alternatives rest on the left-context flag: its contract is checked at the callers by M2" % n_contract)
     if n_sites < 3:
         ctx.broken("only %d look-behind reads found" % n_sites)
 
